@@ -324,3 +324,17 @@ func VH_c10_min_max() {
 	checkMin(in, list.Min(list.FromSeq(in), o), "list.Min", true)
 	checkMin(in, list.Max(list.FromSeq(in), o), "list.Max", false)
 }
+
+// ---- time
+
+func VH_c10_time() {
+	a, b := zz.Time("a"), zz.Time("b")
+	pairLaws(ord.Time, a, b, "Time")
+	before := a.Unix() < b.Unix() || (a.Unix() == b.Unix() && a.Nanosecond() < b.Nanosecond())
+	zz.Assert(ord.Time.Less(a, b) == before, "Time: Less is chronological order")
+}
+
+func VH_c10_time_trans() {
+	a, b, c := zz.Time("a"), zz.Time("b"), zz.Time("c")
+	transLaw(ord.Time, a, b, c, "Time")
+}
